@@ -1,17 +1,20 @@
 --------------------------- MODULE Trace_Resolve ---------------------------
 (***************************************************************************)
-(* Trace judge (code -> spec) for call-level observations: C01, C02, C07.  *)
+(* Trace judge (code -> spec) for call-level observations:                 *)
+(* C01, C02, C06, C07.                                                     *)
 (* Cases come from the harness as one JSON array (env VF_CASES).  Each     *)
 (* case is an initial state; every step consumes one recorded call; the    *)
 (* first clause of the Doc layer the observation falsifies is remembered   *)
-(* and printed as  VERDICT|<id>|<clause>@<step>  ("" = accepted).          *)
-(* Verdicts are total: the spec never deadlocks on a bad observation.      *)
+(* and printed as  VERDICT|<id>|<clause>@<step>|kf=..;drift=..             *)
+(* ("" = accepted).  Verdicts are total: the spec never deadlocks on a bad *)
+(* observation.                                                            *)
 (*                                                                         *)
-(* step.call  : [pos, kwn, kwa]                                            *)
-(* step.obs   : [kind, entered : Seq([m, call, next]), resolve : [kind,m]] *)
+(* step.call    : [pos, kwn, kwa]                                          *)
+(* step.methods : the method set in force for this step (optional; default *)
+(*                case.world.methods) - C06 contexts change it             *)
+(* step.obs     : [kind, entered : Seq([m, call, next]), resolve]          *)
 (*   kind \in run ambiguous nomethod rejected badforward internal raised   *)
 (*   entered[j].next.has = TRUE iff body j delegated with call_next/next   *)
-(* step.via   : "direct" | "recurse"                                        *)
 (***************************************************************************)
 EXTENDS ResolveImpl, TLC, Json, IOUtils
 
@@ -22,60 +25,56 @@ vars == <<i, l, bad, kf, drift, fin>>
 
 Case    == Cases[i]
 W       == MkWorld(Case.world)
-M       == Range(Case.world.methods)
-MById(id) == CHOOSE m \in M : m.id = id
 Props   == Range(Case.props)
 
-ErrKinds == {"ambiguous", "nomethod"}
+MOf(st) == IF "methods" \in DOMAIN st THEN Range(st.methods) ELSE Range(Case.world.methods)
+ById(Ms, id) == CHOOSE m \in Ms : m.id = id
 
 (* some registered method has the call's shape (count + keyword names) *)
-ShapeKnown(call) == \E m \in M : ArityOk(m, call) /\ KwNamesOk(m, call)
+ShapeKnown(Ms, call) == \E m \in Ms : ArityOk(m, call) /\ KwNamesOk(m, call)
 
 (* does observed error kind k satisfy the Doc outcome d (an error)? *)
-ErrMatches(d, k, call) ==
+ErrMatches(Ms, d, k, call) ==
   \/ d.kind = k
-  \/ d.kind = "nomethod" /\ k = "rejected" /\ ~ShapeKnown(call)
+  \/ d.kind = "nomethod" /\ k = "rejected" /\ ~ShapeKnown(Ms, call)
   \/ d.kind = "anyerror" /\ k \in {"ambiguous", "nomethod"}
 
 (*** C01 ***)
 C01Clause(st) ==
-  LET E == st.obs.entered IN
-  IF \E j \in DOMAIN E : AcceptsClause(W, MById(E[j].m), E[j].call) # ""
-  THEN LET j == CHOOSE j \in DOMAIN E : AcceptsClause(W, MById(E[j].m), E[j].call) # ""
-       IN AcceptsClause(W, MById(E[j].m), E[j].call)
+  LET E == st.obs.entered  Ms == MOf(st) IN
+  IF \E j \in DOMAIN E : AcceptsClause(W, ById(Ms, E[j].m), E[j].call) # ""
+  THEN LET j == CHOOSE j \in DOMAIN E : AcceptsClause(W, ById(Ms, E[j].m), E[j].call) # ""
+       IN AcceptsClause(W, ById(Ms, E[j].m), E[j].call)
   ELSE ""
 
 (*** C02: top-level outcome, resolve(), no body on error ***)
 C02Clause(st) ==
   LET call == st.call
-      d    == Outcome(W, ApplicableSet(W, M, call), call)
+      Ms   == MOf(st)
+      d    == Outcome(W, ApplicableSet(W, Ms, call), call)
       E    == st.obs.entered
       r    == st.obs.resolve
   IN
   IF d.kind = "run" THEN
-       IF Len(E) = 0 THEN
-            IF st.obs.kind = "ambiguous" THEN "winner.got_ambiguous"
-            ELSE IF st.obs.kind = "nomethod" THEN "winner.got_nomethod"
-            ELSE "winner.got_" \o st.obs.kind
+       IF Len(E) = 0 THEN "winner.got_" \o st.obs.kind
        ELSE IF E[1].m # d.m THEN "winner.wrong_method"
        ELSE IF r.kind # "skip" /\ ~(r.kind = "run" /\ r.m = d.m) THEN "resolve_agrees"
        ELSE ""
   ELSE
        IF Len(E) # 0 THEN "no_body_on_error." \o d.kind
-       ELSE IF ~ErrMatches(d, st.obs.kind, call) THEN d.kind \o ".got_" \o st.obs.kind
+       ELSE IF ~ErrMatches(Ms, d, st.obs.kind, call) THEN d.kind \o ".got_" \o st.obs.kind
        ELSE IF r.kind # "skip" /\ r.kind # d.kind THEN "resolve_agrees"
        ELSE ""
 
 (*** C07: the chain of bodies entered during one outer call ***)
-(* expected outcome for entry j (j = Len+1: what must end the chain) *)
 ChainExpect(st, j) ==
-  LET E == st.obs.entered IN
-  IF j = 1 THEN Outcome(W, ApplicableSet(W, M, st.call), st.call)
-  ELSE NextOutcome(W, M, MById(E[j-1].m), E[j-1].next.call)
+  LET E == st.obs.entered  Ms == MOf(st) IN
+  IF j = 1 THEN Outcome(W, ApplicableSet(W, Ms, st.call), st.call)
+  ELSE NextOutcome(W, Ms, ById(Ms, E[j-1].m), E[j-1].next.call)
 
 RECURSIVE ChainClause(_, _)
 ChainClause(st, j) ==
-  LET E == st.obs.entered IN
+  LET E == st.obs.entered  Ms == MOf(st) IN
   IF j <= Len(E) THEN
      LET d == ChainExpect(st, j) IN
      IF j > 1 /\ ~E[j-1].next.has THEN "chain.entered_after_leaf"
@@ -83,29 +82,53 @@ ChainClause(st, j) ==
           IF E[j].m = d.m THEN ChainClause(st, j + 1) ELSE "next_is_doc_next"
      ELSE "ends_correctly.body_ran_past_" \o d.kind
   ELSE
-     \* end of the chain
      IF Len(E) > 0 /\ ~E[Len(E)].next.has THEN
           IF st.obs.kind = "run" THEN "" ELSE "chain.leaf_but_" \o st.obs.kind
      ELSE LET d == ChainExpect(st, j) IN
           IF d.kind = "run" THEN "next_is_doc_next.stopped_early"
-          ELSE IF ErrMatches(d, st.obs.kind, IF j = 1 THEN st.call ELSE E[j-1].next.call)
+          ELSE IF ErrMatches(Ms, d, st.obs.kind, IF j = 1 THEN st.call ELSE E[j-1].next.call)
                THEN "" ELSE "ends_correctly." \o d.kind \o ".got_" \o st.obs.kind
 
 VisitedOnce(st) ==
   LET E == st.obs.entered IN
-  \* only meaningful when every delegation re-uses the same argument classes
   \A a, b \in DOMAIN E : (a # b /\ E[a].call = E[b].call) => E[a].m # E[b].m
 
 C07Clause(st) ==
   IF ~VisitedOnce(st) THEN "visited_once" ELSE ChainClause(st, 1)
 
+(***************************************************************************)
+(* C06: step 1 is the base context; every later step is the same call in   *)
+(* another context (iteration orders forced through the order hook,        *)
+(* permuted registration order, extra methods that are not applicable to   *)
+(* the call, another hash seed / process).  The Doc layer checks the       *)
+(* premise (the applicable methods are the same - compared by signature,   *)
+(* priority and relative recency, not by id) and demands the same outcome. *)
+(***************************************************************************)
+AppKey(Ms, m) == <<SigNP(m), m.prio,
+                   Cardinality({x \in Ms : SigNP(x) = SigNP(m) /\ x.prio = m.prio /\ x.reg > m.reg})>>
+AppKeys(Ms, call) == {AppKey(Ms, m) : m \in ApplicableSet(W, Ms, call)}
+
+ObsKey(st) ==
+  LET E == st.obs.entered  Ms == MOf(st) IN
+  <<IF st.obs.kind = "rejected" THEN "nomethod" ELSE st.obs.kind,
+    [j \in DOMAIN E |-> AppKey(Ms, ById(Ms, E[j].m))]>>
+
+C06Clause(st) ==
+  LET base == Case.steps[1] IN
+  IF AppKeys(MOf(st), st.call) # AppKeys(MOf(base), base.call) \/ st.call # base.call
+  THEN "premise.applicable_set_differs"
+  ELSE IF ObsKey(st) # ObsKey(base) THEN "same_across_contexts." \o st.ctx
+  ELSE ""
+
 StepClause(st) ==
   LET c1 == IF "C01" \in Props THEN C01Clause(st) ELSE ""
       c2 == IF "C02" \in Props THEN C02Clause(st) ELSE ""
       c7 == IF "C07" \in Props THEN C07Clause(st) ELSE ""
+      c6 == IF "C06" \in Props THEN C06Clause(st) ELSE ""
   IN IF c1 # "" THEN "C01:" \o c1
      ELSE IF c2 # "" THEN "C02:" \o c2
      ELSE IF c7 # "" THEN "C07:" \o c7
+     ELSE IF c6 # "" THEN "C06:" \o c6
      ELSE ""
 
 (***************************************************************************)
@@ -113,58 +136,69 @@ StepClause(st) ==
 (* behaviours ResolveImpl allows (for some tie order)?  A Doc rejection    *)
 (* that the Impl layer predicts, on an input with the KF_levels signature, *)
 (* is the known finding; an observation the Impl layer does not predict is *)
-(* spec drift (reported, never a verdict).                                 *)
+(* spec drift (reported, never a verdict).  Only meaningful for class      *)
+(* terms (ImplOK = FALSE otherwise: no drift report, no known finding).    *)
 (***************************************************************************)
-KindMatches(o, k, call) ==
+ClsOnly(Ms) == \A m \in Ms : (\A p \in DOMAIN m.pos : m.pos[p].k = "cls")
+                             /\ (\A p \in DOMAIN m.kwt : m.kwt[p].k = "cls")
+
+KindMatches(Ms, o, k, call) ==
   \/ o.kind = k
-  \/ o.kind = "nomethod" /\ k = "rejected" /\ ~ShapeKnown(call)
+  \/ o.kind = "nomethod" /\ k = "rejected" /\ ~ShapeKnown(Ms, call)
 
 ImplConsistent(st) ==
-  LET E == st.obs.entered IN
-  /\ \E r \in RankLists(W, M, st.call) :
+  LET E == st.obs.entered  Ms == MOf(st) IN
+  /\ \E r \in RankLists(W, Ms, st.call) :
         LET o == ImplOutcomeOf(r) IN
-        IF Len(E) = 0 THEN o.kind # "run" /\ KindMatches(o, st.obs.kind, st.call)
+        IF Len(E) = 0 THEN o.kind # "run" /\ KindMatches(Ms, o, st.obs.kind, st.call)
         ELSE o.kind = "run" /\ o.m = E[1].m
   /\ \A j \in 2..Len(E) :
         E[j-1].next.has /\
-        \E r \in RankLists(W, M, E[j-1].next.call) :
+        \E r \in RankLists(W, Ms, E[j-1].next.call) :
            LET o == ImplNextOf(r, E[j-1].m) IN o.kind = "run" /\ o.m = E[j].m
   /\ (Len(E) > 0 /\ E[Len(E)].next.has) =>
-        \E r \in RankLists(W, M, E[Len(E)].next.call) :
+        \E r \in RankLists(W, Ms, E[Len(E)].next.call) :
            LET o == ImplNextOf(r, E[Len(E)].m) IN
-           o.kind # "run" /\ KindMatches(o, st.obs.kind, E[Len(E)].next.call)
+           o.kind # "run" /\ KindMatches(Ms, o, st.obs.kind, E[Len(E)].next.call)
   /\ (Len(E) > 0 /\ ~E[Len(E)].next.has) => st.obs.kind = "run"
 
 KFStep(st) ==
-  LET E == st.obs.entered IN
-  \/ KF_levels(W, M, st.call)
-  \/ \E j \in DOMAIN E : E[j].next.has /\ KF_levels(W, M, E[j].next.call)
+  LET E == st.obs.entered  Ms == MOf(st) IN
+  \/ KF_levels(W, Ms, st.call)
+  \/ \E j \in DOMAIN E : E[j].next.has /\ KF_levels(W, Ms, E[j].next.call)
 
 Flag(b) == IF b THEN "1" ELSE "0"
 
 Init == /\ i \in 1..Len(Cases)
         /\ l = 1
         /\ bad = ""
-        /\ kf = TRUE
+        /\ kf = FALSE
         /\ drift = FALSE
         /\ fin = FALSE
 
+(* bad accumulates every rejected step as  clause@step#k  (k = 1: the step's *)
+(* input has the known-finding signature), separated by ","; for C06 the    *)
+(* signature may hold in any context of the case (kf variable).             *)
 Consume ==
   /\ ~fin /\ l <= Len(Case.steps)
-  /\ LET c == StepClause(Case.steps[l]) IN
-       bad' = IF bad = "" /\ c # "" THEN c \o "@" \o ToString(l) ELSE bad
   /\ LET st == Case.steps[l]
-          ic == ImplConsistent(st) IN
+         c  == StepClause(st)
+         co == ClsOnly(MOf(st))
+         ic == IF co THEN ImplConsistent(st) ELSE TRUE
+         ks == co /\ KFStep(st)
+     IN
+       /\ bad' = IF c # ""
+                 THEN bad \o (IF bad = "" THEN "" ELSE ",") \o c \o "@" \o ToString(l) \o "#" \o Flag(ks /\ ic)
+                 ELSE bad
        /\ drift' = (drift \/ ~ic)
-       \* a rejection is "the known finding" only if every rejected step has the
-       \* input signature and behaves as the Impl layer predicts
-       /\ kf' = IF StepClause(st) # "" THEN kf /\ ic /\ KFStep(st) ELSE kf
+       /\ kf' = (kf \/ ks)
   /\ l' = l + 1
   /\ UNCHANGED <<i, fin>>
 
 Finish ==
   /\ ~fin /\ l > Len(Case.steps)
-  /\ PrintT("VERDICT|" \o Case.id \o "|" \o bad \o "|kf=" \o Flag(bad # "" /\ kf) \o ";drift=" \o Flag(drift))
+  /\ PrintT("VERDICT|" \o Case.id \o "|" \o bad \o "|kf=" \o Flag(kf /\ ~drift)
+            \o ";drift=" \o Flag(drift))
   /\ fin' = TRUE
   /\ UNCHANGED <<i, l, bad, kf, drift>>
 
